@@ -156,4 +156,20 @@ CHECKS = {
         ],
         "uncovered": SPLINE_UNCOVERED,
     },
+    "C07": {
+        "units": [],
+        "extra": "c07",
+        "level": "other",
+        "explanation": "verified checker (Verus) compiled and executed on the tables extracted from /repo on this run; exhaustive over all dates 1970-2200",
+        "assumptions": [
+            "the published rules as transcribed in c07/template.rs from the RULES constants and <x>_script.py files (pandas Holiday semantics)",
+            "Gregorian computus and civil-date arithmetic are the definitions used by the rules",
+            "extraction by regular expressions in vxlib/c07.py (any entry of unexpected shape aborts the run as undecided)",
+            "holiday tables are read as sets, as Cal::new does (IndexSet::from_iter): the extractor sorts them and drops repeated entries before the verified checker sees them",
+        ],
+        "uncovered": [
+            "tro/tyo/syd/wlg/mum: only the plain documented fixed-date and Easter-linked holidays are checked (one direction), as the property states",
+            "chrono's parser for the fixed \"%Y-%m-%d %H:%M:%S\" strings is not part of the check (the extractor parses the same fixed shape itself)",
+        ],
+    },
 }
